@@ -102,6 +102,7 @@ class MetaMolecule(nx.Graph):
         nx.set_node_attributes(self, True, "build")
         nx.set_node_attributes(self, True, "backmap")
         self.__search_tree = None
+        self.__search_tree_root = None
         self.root = None
         self.dfs = False
         self.max_resid = 0
@@ -207,7 +208,8 @@ class MetaMolecule(nx.Graph):
     @property
     def search_tree(self):
 
-        if self.__search_tree is None:
+        # a tree made before the root was (re)set is not the tree of that root
+        if self.__search_tree is None or self.__search_tree_root != self.root:
             if self.root is None:
                 self.root =_find_starting_node(self)
             # residues are visited depth-first; for cyclic molecules
@@ -215,6 +217,7 @@ class MetaMolecule(nx.Graph):
             # node of the tree are the two residues joined by the ring
             # closing edge. A breadth-first tree ends opposite of the root.
             self.__search_tree = nx.dfs_tree(self, source=self.root)
+            self.__search_tree_root = self.root
 
         return self.__search_tree
 
